@@ -89,10 +89,13 @@ type Dependency struct {
 }
 
 func (dep *Dependency) UnmarshalControl(data string) error {
-	ibuf := input{Index: 0, Data: data}
-	dep.Relations = []Relation{}
-	err := parseDependency(&ibuf, dep)
-	return err
+	parsed, err := Parse(data)
+	if err != nil {
+		/* Nothing of a field that does not parse reaches the receiver. */
+		return err
+	}
+	dep.Relations = parsed.Relations
+	return nil
 }
 
 func (dep Dependency) MarshalControl() (string, error) {
